@@ -119,7 +119,7 @@ def alpha(spectrum, freq, fp):
     if pos.size == 0:
         pos = [freq.size - 2, freq.size - 1]
     elif pos.size == 1:
-        if pos[0] == freq.size[-1]:
+        if pos[0] == freq.size - 1:
             pos = [pos[0] - 1, pos[0]]
         else:
             pos = [pos[0], pos[0] + 1]
